@@ -292,7 +292,25 @@ func replaceWord(s, old, new string) string {
 
 // callResultFacts: facts about the arguments of a call that hold whenever the call returned the constant k
 // (every return of k in the callee is dominated by them), in the caller's terms.
-func callResultFacts(c *ssa.Call, k int64) []Fact {
+func callResultFacts(c *ssa.Call, k int64) []Fact { return callResultFactsAt(c, 0, k) }
+
+// callOfValue: v is the (ri-th) result of a call.
+func callOfValue(v ssa.Value) (*ssa.Call, int, bool) {
+	switch x := stripIntConv(v).(type) {
+	case *ssa.Call:
+		if x.Call.Signature().Results().Len() == 1 {
+			return x, 0, true
+		}
+	case *ssa.Extract:
+		if c, ok := x.Tuple.(*ssa.Call); ok {
+			return c, x.Index, true
+		}
+	}
+	return nil, 0, false
+}
+
+// callResultFactsAt: the same for result ri of a multi-result function.
+func callResultFactsAt(c *ssa.Call, ri int, k int64) []Fact {
 	f := c.Call.StaticCallee()
 	if f == nil || c.Call.IsInvoke() || len(f.Blocks) == 0 || fnPkg(f) == nil || !core.InModule(fnPkg(f)) || inlineDepth > 2 {
 		return nil
@@ -300,10 +318,10 @@ func callResultFacts(c *ssa.Call, k int64) []Fact {
 	var sets [][]Fact
 	for _, b := range f.Blocks {
 		ret, ok := lastInstr(b).(*ssa.Return)
-		if !ok || len(ret.Results) != 1 {
+		if !ok || ri >= len(ret.Results) {
 			continue
 		}
-		kc, isC := ret.Results[0].(*ssa.Const)
+		kc, isC := ret.Results[ri].(*ssa.Const)
 		if !isC || kc.Value == nil || kc.Value.Kind() != constant.Int {
 			return nil // a computed result: nothing can be said per value
 		}
@@ -409,7 +427,10 @@ func factsOfCond(cond ssa.Value, truth bool) []Fact {
 // factsOfAtom turns one atomic comparison that holds into facts (including what a constant result of a
 // module function implies about its arguments).
 func factsOfAtom(a condAtom) []Fact {
-	if !isIntType(a.x.Type()) {
+	if a.call != nil {
+		return boolCallFacts(a.call, a.truth)
+	}
+	if a.x == nil || a.y == nil || !isIntType(a.x.Type()) {
 		return nil
 	}
 	x, y := linOf(a.x), linOf(a.y)
@@ -426,9 +447,9 @@ func factsOfAtom(a condAtom) []Fact {
 	case token.EQL:
 		out = []Fact{{L: x.add(y, -1)}, {L: y.add(x, -1)}}
 		for _, pr := range [][2]ssa.Value{{a.x, a.y}, {a.y, a.x}} {
-			if c, ok := stripIntConv(pr[0]).(*ssa.Call); ok {
+			if c, ri, ok := callOfValue(pr[0]); ok {
 				if k, isK := pr[1].(*ssa.Const); isK && k.Value != nil && k.Value.Kind() == constant.Int {
-					out = append(out, callResultFacts(c, k.Int64())...)
+					out = append(out, callResultFactsAt(c, ri, k.Int64())...)
 				}
 			}
 		}
@@ -452,25 +473,33 @@ func blockFacts(b *ssa.BasicBlock) []Fact {
 // excludedResultFacts: a call of a helper that returns only constants, compared unequal to all of them but
 // one (the default arm of a switch on its result), returned that one.
 func excludedResultFacts(atoms []condAtom) []Fact {
-	excl := map[*ssa.Call]map[int64]bool{}
+	type key struct {
+		c  *ssa.Call
+		ri int
+	}
+	excl := map[key]map[int64]bool{}
 	for _, a := range atoms {
 		if a.op != token.NEQ {
 			continue
 		}
 		for _, pr := range [][2]ssa.Value{{a.x, a.y}, {a.y, a.x}} {
-			c, ok := stripIntConv(pr[0]).(*ssa.Call)
+			if pr[0] == nil || pr[1] == nil {
+				continue
+			}
+			c, ri, ok := callOfValue(pr[0])
 			k, isK := pr[1].(*ssa.Const)
 			if ok && isK && k.Value != nil && k.Value.Kind() == constant.Int {
-				if excl[c] == nil {
-					excl[c] = map[int64]bool{}
+				kk := key{c, ri}
+				if excl[kk] == nil {
+					excl[kk] = map[int64]bool{}
 				}
-				excl[c][k.Int64()] = true
+				excl[kk][k.Int64()] = true
 			}
 		}
 	}
 	var out []Fact
-	for c, ex := range excl {
-		ks, ok := constResults(c)
+	for kk, ex := range excl {
+		ks, ok := constResultsAt(kk.c, kk.ri)
 		if !ok {
 			continue
 		}
@@ -481,7 +510,7 @@ func excludedResultFacts(atoms []condAtom) []Fact {
 			}
 		}
 		if len(left) == 1 {
-			out = append(out, callResultFacts(c, left[0])...)
+			out = append(out, callResultFactsAt(kk.c, kk.ri, left[0])...)
 		}
 	}
 	return out
@@ -571,3 +600,59 @@ func storesToField(fn *ssa.Function, fieldCanon string) []*ssa.Store {
 }
 
 func typesPtr(t types.Type) types.Type { return types.NewPointer(t) }
+
+// boolCallFacts: facts about the arguments of a call to a module predicate (`z.atEnd(i)`, `l.hasRoom(n)`) that hold
+// whenever it returned truth: what is common to all its returns that can produce that value, in the caller's terms.
+func boolCallFacts(c *ssa.Call, truth bool) []Fact {
+	f := c.Call.StaticCallee()
+	if f == nil || c.Call.IsInvoke() || len(f.Blocks) == 0 || fnPkg(f) == nil || !core.InModule(fnPkg(f)) || inlineDepth > 2 {
+		return nil
+	}
+	if f.Object() != nil && f.Object().Exported() && !affineInlineExported {
+		return nil
+	}
+	var sets [][]Fact
+	for _, b := range f.Blocks {
+		ret, ok := lastInstr(b).(*ssa.Return)
+		if !ok || len(ret.Results) != 1 {
+			continue
+		}
+		inlineDepth++
+		fs := blockFacts(b)
+		if kc, isC := ret.Results[0].(*ssa.Const); isC {
+			if kc.Value == nil || kc.Value.Kind() != constant.Bool || constant.BoolVal(kc.Value) != truth {
+				inlineDepth--
+				continue
+			}
+		} else {
+			for _, a := range condAtoms(ret.Results[0], truth, 0) {
+				fs = append(fs, factsOfAtom(a)...)
+			}
+			fs = strengthen(fs)
+		}
+		inlineDepth--
+		sets = append(sets, fs)
+	}
+	if len(sets) == 0 {
+		return nil
+	}
+	var out []Fact
+	for _, ft := range sets[0] {
+		if ft.NE {
+			continue
+		}
+		common := true
+		for _, other := range sets[1:] {
+			if !entails(other, ft.L) {
+				common = false
+			}
+		}
+		if !common {
+			continue
+		}
+		if l, ok := substParams(ft.L, f, c.Call.Args); ok {
+			out = append(out, Fact{L: l})
+		}
+	}
+	return out
+}
